@@ -127,7 +127,10 @@ def gen(rng, tier, run):
         edges = [[rng.randrange(n), rng.randrange(n), rng.random() < 0.3] for _ in range(rng.randrange(0, 2 * n + 1))]
         if rng.random() < 0.5:     # a chain, sometimes closed into a ring
             edges += [[i, i + 1, False] for i in range(n - 1)] + ([[n - 1, 0, rng.random() < 0.5]] if rng.random() < 0.6 else [])
-        ops.append(['closegraph', n, edges, sorted(rng.sample(range(n), rng.randrange(1, n + 1)))])
+        roots = rng.sample(range(n), rng.randrange(1, n + 1))
+        if rng.random() < 0.3:     # a task listed twice by the job
+            roots.append(rng.choice(roots))
+        ops.append(['closegraph', n, edges, roots])
     ops.append(['close', sorted(rng.sample(oks, rng.randrange(1, min(len(oks), 5) + 1)))])
     return {'ops': ops}
 
